@@ -11,6 +11,7 @@ import (
 	"net"
 	"net/http"
 	"net/http/httptest"
+	"runtime"
 	"strings"
 	"sync"
 	"testing"
@@ -580,3 +581,126 @@ func runRealWS(c RealWSCase) vkit.Result {
 }
 
 func TestRealWebsocket(t *testing.T) { vkit.Check(t, genRealWS, runRealWS) }
+
+// ---------------------------------------------------------------------------------------------
+// Concurrent writers. The broker's publishers write to a subscriber's connection from their own goroutines while
+// the flush timer runs; every Write call carries one whole packet. Whatever the schedule and the rate limiter
+// decide, the socket must receive each written record once, whole, and the records of one writer in its order.
+
+// slowSock serialises Write calls like a real socket does but consumes the bytes slowly.
+type slowSock struct {
+	fakeSock
+	out []byte
+}
+
+func (s *slowSock) Write(p []byte) (int, error) {
+	s.mu.Lock()
+	defer s.mu.Unlock()
+	for i := 0; i < len(p); i += 16 {
+		j := i + 16
+		if j > len(p) {
+			j = len(p)
+		}
+		s.out = append(s.out, p[i:j]...)
+		runtime.Gosched()
+	}
+	return len(p), nil
+}
+
+// CWCase: Writers goroutines write Records records each; Flushers goroutines call Flush in between.
+type CWCase struct {
+	Rate     int   `json:"rate"`
+	Writers  int   `json:"writers"`
+	Records  int   `json:"records"`
+	Flushers int   `json:"flushers"`
+	Sizes    []int `json:"sizes"`
+}
+
+func genCW(t *rapid.T) CWCase {
+	return CWCase{
+		Rate:     rapid.SampledFrom([]int{1, 2, 5, 60, 1000}).Draw(t, "rate"),
+		Writers:  rapid.IntRange(2, 6).Draw(t, "writers"),
+		Records:  rapid.IntRange(5, 120).Draw(t, "records"),
+		Flushers: rapid.IntRange(0, 2).Draw(t, "flushers"),
+		Sizes:    rapid.SliceOfN(rapid.SampledFrom([]int{0, 1, 7, 30, 120, 250}), 1, 5).Draw(t, "sizes"),
+	}
+}
+
+func runCW(c CWCase) vkit.Result {
+	ss := &slowSock{}
+	conn := listener.VerifNewConn(ss, c.Rate)
+	defer conn.Close()
+	var wg sync.WaitGroup
+	stop := make(chan struct{})
+	var fwg sync.WaitGroup
+	for f := 0; f < c.Flushers; f++ {
+		fwg.Add(1)
+		go func() {
+			defer fwg.Done()
+			for {
+				select {
+				case <-stop:
+					return
+				default:
+					conn.Flush()
+					runtime.Gosched()
+				}
+			}
+		}()
+	}
+	for w := 0; w < c.Writers; w++ {
+		wg.Add(1)
+		go func(w int) {
+			defer wg.Done()
+			for r := 0; r < c.Records; r++ {
+				sz := c.Sizes[(w+r)%len(c.Sizes)]
+				p := make([]byte, 4+sz)
+				p[0], p[1], p[2], p[3] = byte(0xA0+w), byte(r>>8), byte(r), byte(sz)
+				for i := 4; i < len(p); i++ {
+					p[i] = byte(w*31 + r)
+				}
+				conn.Write(p)
+			}
+		}(w)
+	}
+	wg.Wait()
+	close(stop)
+	fwg.Wait()
+	conn.Flush()
+	ss.mu.Lock()
+	out := append([]byte(nil), ss.out...)
+	ss.mu.Unlock()
+	next := make([]int, c.Writers)
+	total := 0
+	for off := 0; off < len(out); {
+		if len(out)-off < 4 {
+			return vkit.Failf("socket stream ends with %d stray bytes at offset %d", len(out)-off, off)
+		}
+		w, r, sz := int(out[off])-0xA0, int(out[off+1])<<8|int(out[off+2]), int(out[off+3])
+		if w < 0 || w >= c.Writers {
+			return vkit.Failf("socket stream is not a sequence of whole records: byte %#x at offset %d is not a record header", out[off], off)
+		}
+		if off+4+sz > len(out) {
+			return vkit.Failf("record (writer %d, #%d) at offset %d is cut short", w, r, off)
+		}
+		for i := off + 4; i < off+4+sz; i++ {
+			if out[i] != byte(w*31+r) {
+				return vkit.Failf("record (writer %d, #%d) at offset %d: payload byte %d is %#x, written %#x", w, r, off, i-off-4, out[i], byte(w*31+r))
+			}
+		}
+		if r != next[w] {
+			return vkit.Failf("writer %d: record #%d reached the socket where #%d was expected (%d writers, rate %d): a record was lost, duplicated or reordered", w, r, next[w], c.Writers, c.Rate)
+		}
+		next[w]++
+		total++
+		off += 4 + sz
+	}
+	for w, n := range next {
+		if n != c.Records {
+			return vkit.Failf("writer %d: %d of its %d records reached the socket", w, n, c.Records)
+		}
+	}
+	return vkit.OK(c.Rate <= 60, fmt.Sprintf("cw-rate-%d", c.Rate))
+}
+
+func TestConcurrentWrites(t *testing.T) { vkit.Check(t, genCW, runCW) }
